@@ -7,7 +7,7 @@ import ast
 from ..core import Ctx, RuleResult, finding, short, walk_no_nested
 from ..model import AnalysisError, norm
 from ..mutants import Mut
-from ..rules import accum, exc, prog
+from ..rules import accum, offstep, exc, prog
 from ..rules.exc import ExcEngine
 from ..rules.util import callee_name, cfg_of, lin_str, linear, nodes_where
 from . import c01, c11
@@ -166,6 +166,58 @@ def rule_reopen(ctx: Ctx) -> RuleResult:
     return rr
 
 
+def rule_trim_width(ctx: Ctx) -> RuleResult:
+    """A layout segment (columns, start, end) whose offsets come from calc_trim_text(text, a, b, start_col, end_col)
+    covers exactly end_col - start_col - pad_left - pad_right columns: that is what it must declare, otherwise
+    the line claims a width it does not have and alignment shifts / clips it."""
+    from ..rules.defuse import DefUse
+    from ..rules.util import linear, lin_str
+
+    p = ctx.p
+    rr = RuleResult("PAIR", "C03.11", "a segment cut with calc_trim_text declares end_col - start_col - pad_left - pad_right columns", floor=1)
+    fi = p.func(f"{STL}._calculate_trimmed_segments")
+    du = DefUse(fi)
+    cfg = du.cfg
+    calls = [n for n in cfg.nodes if isinstance(n.ast, ast.Assign) and isinstance(n.ast.targets[0], ast.Tuple) and len(n.ast.targets[0].elts) == 4 and isinstance(n.ast.value, ast.Call) and callee_name(n.ast.value) == "calc_trim_text" and len(n.ast.value.args) == 5]
+    if not calls:
+        raise AnalysisError("_calculate_trimmed_segments: the calc_trim_text call was not found")
+    for cn in calls:
+        so, eo, pl, pr = (e.id if isinstance(e, ast.Name) else None for e in cn.ast.targets[0].elts)
+        a = cn.ast.value.args
+        want = linear(ast.BinOp(left=a[4], op=ast.Sub(), right=a[3]))
+        if want is None or None in (so, eo, pl, pr):
+            raise AnalysisError("_calculate_trimmed_segments: calc_trim_text call not in the expected shape")
+        want = dict(want)
+        want[pr] = want.get(pr, 0) - 1
+        want_pl = dict(want)
+        want_pl[pl] = want_pl.get(pl, 0) - 1
+        zero_pl = any(t.kind == "test" and ast.unparse(t.ast) in (f"{pl} != 0", f"{pl}") and any(x.kind == "raise" or isinstance(x.ast, ast.Raise) for x, lab in t.succ if lab == "T") for t in cfg.nodes)
+        # segments (W, s, e) built from these offsets
+        n = 0
+        for node in cfg.nodes:
+            if node.ast is None or node.kind in ("for", "with", "handler"):
+                continue
+            for t in walk_no_nested(node.ast):
+                if isinstance(t, ast.Tuple) and len(t.elts) == 3 and isinstance(t.ctx, ast.Load) and isinstance(t.elts[2], ast.Name) and t.elts[2].id == eo:
+                    for v, how, dn in du.reaching(t.elts[0].id, node) if isinstance(t.elts[0], ast.Name) else [(t.elts[0], "expr", node)]:
+                        if not isinstance(v, ast.AST) or cn not in cfg.reachable([cfg.entry], avoid=[dn], include_start=True) and dn is not node:
+                            pass
+                        if not isinstance(v, ast.AST):
+                            continue
+                        # only definitions made after (dominated by) the trim call describe the trimmed text
+                        if dn is not node and not cfg.dominated(dn, [cn]):
+                            continue
+                        got = linear(v)
+                        n += 1
+                        rr.inst(f"{norm(t, 40)}<-{norm(v, 40)}", True, {"segment": norm(t, 50), "declared": norm(v, 50), "covered": lin_str({k: x for k, x in want.items() if x})})
+                        clean = lambda d: {k: x for k, x in (d or {}).items() if x}
+                        if got is None or (clean(got) != clean(want_pl) and not (zero_pl and clean(got) == clean(want))):
+                            rr.add(finding("PAIR", fi, dn.stmt, f"the segment `{norm(t, 50)}` declares `{norm(v, 50)}` columns, but the text between the offsets calc_trim_text returned covers `{lin_str(clean(want))}`: the line claims a width it does not have, so center / right alignment shifts and clips it", construct=f"trimmed segment declares {norm(v, 50)}"))
+        if not n:
+            raise AnalysisError("_calculate_trimmed_segments: no segment uses the offsets calc_trim_text returned")
+    return rr
+
+
 def run(ctx: Ctx):
     p = ctx.p
     # the text-consuming loops of the layout class (calc_pos's search loop pops from the lists its test reads and is
@@ -185,11 +237,17 @@ def run(ctx: Ctx):
         r6,
         rule_reopen(ctx),
         accum.run_accum(p, "C03.9", "C03", floor=3),
+        rule_trim_width(ctx),
+        offstep.run_offstep(p, "C03.10", [f.qualname for f in p.modules[TL].functions], floor=5),
     ]
 
 
 _T = "urwid/text_layout.py"
 MUTANTS = [
+    Mut("ellipsis-segment-one-column-short", _T, "StandardTextLayout._calculate_trimmed_segments", "screen_columns = width - ellipsis_width - pad_right", "screen_columns = width - 1 - pad_right", "PAIR|text_layout.StandardTextLayout._calculate_trimmed_segments"),
+    Mut("ellipsis-segment-ignores-pad", _T, "StandardTextLayout._calculate_trimmed_segments", "screen_columns = width - ellipsis_width - pad_right", "screen_columns = width - ellipsis_width", "PAIR|text_layout.StandardTextLayout._calculate_trimmed_segments"),
+    Mut("twin-ellipsis-segment-reordered", _T, "StandardTextLayout._calculate_trimmed_segments", "screen_columns = width - ellipsis_width - pad_right", "screen_columns = width - pad_right - ellipsis_width", twin=True),
+    Mut("wide-wrap-steps-one-byte", _T, "StandardTextLayout.calculate_text_segments", "next_char = move_next_char(text, prev, pos)", "next_char = prev + 1", "OFFSTEP|text_layout.StandardTextLayout.calculate_text_segments"),
     Mut("layout-lets-cannot-display-escape", _T, "StandardTextLayout.layout", "        except CanNotDisplayText:\n            return [[]]", "        except ValueError:\n            return [[]]", "EXC|"),
     Mut("any-wrap-no-progress", _T, "StandardTextLayout.calculate_text_segments", "                segments.append([(screen_columns, idx, pos)])\n                idx = pos\n                continue\n\n            if wrap != \"space\":", "                segments.append([(screen_columns, idx, pos)])\n                continue\n\n            if wrap != \"space\":", "PROG|"),
     Mut("consume-non-space", _T, "StandardTextLayout.calculate_text_segments", "            if text[pos] == sp_o:\n                # perfect space wrap", "            if text[pos] != nl_o:\n                # perfect space wrap", "GUARD|text_layout.StandardTextLayout.calculate_text_segments", note="marker emitted without a space test"),
